@@ -52,12 +52,23 @@ func Wrap(t tabular.Table, style string) RenderTable {
 	case "texttable":
 		tt := texttable.Wrap(t)
 		if len(sections) > 1 {
-			tt.SetDecorationNamed(sections[1])
+			// a registered decoration name may itself contain dots, or
+			// even start with "texttable."
+			if _, err := tt.SetDecorationNamed(strings.Join(sections[1:], ".")); err != nil {
+				if _, err = tt.SetDecorationNamed(sections[1]); err != nil {
+					if decoration.Named(style) != decoration.EmptyDecoration {
+						tt.SetDecorationNamed(style)
+					}
+				}
+			}
 		}
 		return tt
 	default:
 		tt := texttable.Wrap(t)
-		tt.SetDecorationNamed(sections[0])
+		// a registered decoration name may itself contain dots
+		if _, err := tt.SetDecorationNamed(style); err != nil {
+			tt.SetDecorationNamed(sections[0])
+		}
 		return tt
 	}
 }
